@@ -310,7 +310,7 @@ impl BinArchive {
         }
 
         if let Endian::Big = self.endian {
-            labels.sort_by(|a, b| a.1.cmp(b.1));
+            labels.sort_by(|a, b| a.1.cmp(b.1).then(a.0.cmp(b.0)));
         } else {
             labels.sort_by(|a, b| a.0.cmp(b.0));
         }
